@@ -12,7 +12,7 @@ R4 fast/cold plumbing: selector constant = load width = "all matched" constants,
 """
 from . import util, guards, scan
 from . import absint as A
-from .absint import TOP, ALL, mask_of
+from .absint import TOP, ALL, mask_of, Auto, Engine
 from .cfg import cfg
 from .common import norm
 from .sym import sym, short, mentions, subexprs
@@ -36,35 +36,12 @@ def run_r1(ctx, rule):
     for name in SIMPLE:
         f = tfn(facts, name)
         sy = sym(f)
-        # the flag that gates the result
-        ts = [(bb, t) for bb, t in f.calls() if util.cname(t).endswith("bool::then_some")]
-        if len(ts) != 1:
-            rule.bad("%s/then_some" % name, "%s: expected exactly one then_some gating the result (found %d)" % (name, len(ts)), f.loc(), kind="unmodelled-idiom")
-            continue
-        gate = sy.operand(ts[0][1]["args"][0])
-        if not (gate[0] == "un" and gate[1] == "Not" and gate[2][0] == "l"):
-            rule.bad("%s/gate" % name, "%s: the result is not gated by `!overflow` (got %s)" % (name, sy.show(gate)), f.loc(ts[0][0]))
-            continue
-        ov = gate[2][1]
-        rule.ok("%s: the returned Option is (!overflow).then_some(value)" % name, f.loc(ts[0][0]))
-        # the value handed to then_some and the offset in the returned tuple
-        # every overflowing_* call's flag is or-ed into `overflow`
-        ors = []
-        for b in f.blocks:
-            for s in b["stmts"]:
-                if s["k"] == "assign" and s["lhs"]["l"] == ov and not s["lhs"]["p"]:
-                    ors.append(sy.rvalue(s["rv"]))
-        ordn = {}
+        # (how the overflow flags reach the result is decided by R1b, independently of how the flag is stored)
         for bb, t in f.calls():
             cn = util.cname(t)
-            if not (norm(t["callee"].get("def", "")).startswith(OVF) or cn.startswith(OVF)):
-                continue
-            n_calls += 1
-            op = cn.rsplit("::", 1)[-1]
-            o = ordn.get(op, 0)
-            ordn[op] = o + 1
-            used = any(e[0] == "bin" and e[1] == "BitOr" and ("l", ov) in (e[2], e[3]) and any(x[0] == "f" and x[2] == "1" and x[1][0] == "call" and x[1][1] == bb for x in (sy.origin(e[2]), sy.origin(e[3]))) for e in ors)
-            rule.check(used, "%s/%s/#%d/flag" % (name, op, o), "%s: the overflow flag of %s #%d is or-ed into the gating flag" % (name, op, o), f.loc(bb))
+            if norm(t["callee"].get("def", "")).startswith(OVF) or cn.startswith(OVF):
+                n_calls += 1
+                rule.ok("%s: %s is a checked (overflowing_*) step" % (name, cn.rsplit("::", 1)[-1]), f.loc(bb))
         # no other arithmetic on the generic integer
         for bb, t in f.calls():
             d = norm(t["callee"].get("def", ""))
@@ -74,11 +51,75 @@ def run_r1(ctx, rule):
             for s in b["stmts"]:
                 if s["k"] == "assign" and s["rv"]["k"] == "bin" and s["rv"]["ty"] in f.j["generics"]:
                     rule.bad("%s/primitive-binop" % name, "%s: primitive arithmetic on the generic integer" % name, f.loc(bi))
-        # continuation variants: an incoming None sets the flag
-        if "cont" in name:
-            init = [d for d in sy.defs.get(ov, []) if d[0] == "call" and norm(util.cname(d[2])).endswith("Option::is_none") and sy.operand(d[2]["args"][0]) == ("l", 3)]
-            rule.check(bool(init), "%s/incoming-none" % name, "%s: an incoming None (earlier overflow) sets the flag before the loop" % name, f.loc())
     rule.note("overflowing_calls", n_calls)
+
+
+# ---- R1b: the flag discipline as a typestate (independent of how the flag is stored) -----------------
+class OvfAuto(Auto):
+    """True once an overflowing_* step reported overflow on this path (or the incoming value was already None)"""
+
+    name = "overflow-seen"
+    track_all_adts = True
+
+    def __init__(self):
+        self.n_steps = 0
+
+    def initial(self):
+        return False
+
+
+def _prim_overflowing(eng, fn, bb, t, env, state, args, where, n):
+    eng.auto.n_steps += 1
+    # decided at once: the step either overflowed (the path remembers it) or it did not
+    return [(("t", (TOP, ("b", True, (), ()))), env, True), (("t", (TOP, ("b", False, (), ()))), env, state)]
+
+
+OvfAuto.extra_prims = {
+    OVF + "OverflowingMul::overflowing_mul": _prim_overflowing,
+    OVF + "OverflowingAdd::overflowing_add": _prim_overflowing,
+    OVF + "OverflowingSub::overflowing_sub": _prim_overflowing,
+}
+
+
+def run_r1b(ctx, rule):
+    """None is returned exactly on the paths on which some overflowing_* step reported overflow (or None came in):
+    decided by interpreting the scanner with every step's flag decided both ways -- however the function stores it
+    (bool, enum, struct field)"""
+    facts = ctx.facts
+    from . import scan
+    for name in SIMPLE:
+        f = tfn(facts, name)
+        cont = "cont" in name
+        entries = [("value", False)]
+        if cont:
+            entries = [("Some", False), ("None", True)]
+        for what, ovf0 in entries:
+            auto = OvfAuto()
+            eng = Engine(facts, auto)
+            args = [TOP for _ in range(f.argc)]
+            if cont:
+                args[2] = A.enum(A.OPTION, [("Some", TOP)] if what == "Some" else [("None", None)])
+            try:
+                res = eng.summary(scan.root_key(facts, f.id), ovf0, tuple(args))
+            except (A.Recursion, A.Imprecise) as e:
+                rule.bad("%s/engine" % name, "analysis failed: %r" % e, f.loc(), kind="unmodelled-idiom")
+                continue
+            bad = []
+            seen = set()
+            for av, st in res:
+                opt = av[1][0] if av[0] == "t" and av[1] else None
+                names = set(n for n, _ in opt[2]) if opt and opt[0] == "e" else None
+                seen.add((st, tuple(sorted(names)) if names else None))
+                if names is None:
+                    bad.append("the returned value is not a tracked Option (%s)" % A.show(av)[:40])
+                elif st and names != {"None"}:
+                    bad.append("a value is returned although a step overflowed" if not (cont and what == "None") else "a value is returned although None came in")
+                elif not st and names != {"Some"}:
+                    bad.append("None is returned although no step overflowed")
+            tag = name if not cont else "%s/incoming-%s" % (name, what)
+            rule.check(not bad, "%s/none-iff-overflow" % tag, "%s%s returns None exactly on the paths where an overflowing step reported overflow%s (%d steps interpreted)%s" % (name, " (incoming %s)" % what if cont else "", " or None came in" if cont else "", auto.n_steps, "" if not bad else " -- " + sorted(set(bad))[0]), f.loc())
+            if auto.n_steps == 0:
+                rule.bad("%s/no-steps" % tag, "%s: no overflowing_* step was interpreted" % name, f.loc(), kind="anchor-missing")
 
 
 def run_r2(ctx, rule):
@@ -195,7 +236,12 @@ def run_r3(ctx, rule):
 
 def run_r4(ctx, rule):
     facts = ctx.facts
+    have_cold = {}
     for name, simple in (("ascii_digits_multi_cold", "ascii_digits"), ("signed_ascii_digits_multi_cold", "signed_ascii_digits")):
+        ids = [i for i in facts.fns if norm(i) == T + name]
+        have_cold[name] = bool(ids)
+        if not ids:
+            continue  # the out-of-line shim may be merged into its caller: then the caller calls the simple variant itself
         f = tfn(facts, name)
         sy = sym(f)
         calls = [(bb, t) for bb, t in f.calls()]
@@ -204,10 +250,12 @@ def run_r4(ctx, rule):
     for name in ("ascii_digits_multi", "signed_ascii_digits_multi"):
         f = tfn(facts, name)
         sy = sym(f)
-        # the cold sibling gets (reader, offset)
+        n_cold = 0
+        # the cold sibling (or, when the shim is merged, the simple variant itself) gets (reader, offset)
         for bb, t in f.calls():
             cn = norm(util.cname(t))
-            if cn == T + name + "_cold":
+            if cn == T + name + "_cold" or (not have_cold[name + "_cold"] and cn == T + name[: -len("_multi")]):
+                n_cold += 1
                 ok = [sy.operand(a) for a in t["args"]] == [("l", 1), ("l", 2)]
                 g0 = guards.holds(f, bb, lambda fa: guards.cmp_matches(fa, "Lt", lambda x: x[0] == "call" and norm(x[2]).endswith("buf_len"), lambda x: x == ("bin", "Add", ("l", 2), ("c", 8))))
                 rule.check(ok and bool(g0), "%s/cold-call" % name, "%s defers to its cold sibling with unchanged arguments exactly when fewer than offset+8 bytes are buffered" % name, f.loc(bb))
@@ -223,6 +271,8 @@ def run_r4(ctx, rule):
                 if name.startswith("signed"):
                     gm = guards.holds(f, bb, lambda fa: fa[0] == "cmp" and fa[1] in ("Eq", "Ne") and any(x[0] == "bin" and x[1] == "BitAnd" and ("c", 255) in (x[2], x[3]) for x in (fa[2], fa[3])))
                     rule.check(bool(gm) and (gm[1][1] == "Eq") == neg, "%s/%s/sign-branch" % (name, short(cn)), "%s: %s is on the %s branch" % (name, short(cn), "'-'" if neg else "unsigned"), f.loc(bb))
+        if n_cold == 0:
+            rule.bad("%s/cold-call-missing" % name, "%s has no byte-wise path for fewer than offset+8 buffered bytes" % name, f.loc(), kind="anchor-missing")
         # returned tuples: (converted value, offset + matched [+ sign])
         n_ret = 0
         for bi, b in enumerate(f.blocks):
@@ -252,8 +302,10 @@ def run_r4(ctx, rule):
 
 
 def run(ctx):
-    r1 = ctx.rule("C13-R1", "overflow-flag discipline: all overflowing_* flags reach the gating flag; no other arithmetic on the value", floor=14)
+    r1 = ctx.rule("C13-R1", "all arithmetic on the accumulated value goes through overflowing_* steps (no plain or primitive arithmetic on the generic integer)", floor=8)
     run_r1(ctx, r1)
+    r1b = ctx.rule("C13-R1b", "None is returned exactly when a step overflowed or None came in (typestate; independent of how the flag is stored)", floor=6)
+    run_r1b(ctx, r1b)
     r2 = ctx.rule("C13-R2", "sibling agreement of the accumulation step (x10 then +/- (byte - b'0'))", floor=14)
     run_r2(ctx, r2)
     r3 = ctx.rule("C13-R3", "scanning behaviour: digit class, +1 per digit, a lone minus is not passed over (entry offsets 0 and 1)", floor=60)
